@@ -285,7 +285,9 @@ def families(tier, seed):
 
 
 def main():
-    chk = Check("C13", "exploration")
+    chk = Check("C13", "other")
+    # deductive core: frame (ownership) contracts of the functions this property rests on (contracts/frames.py)
+    chk.run_frames()
     driver.run_family(
         chk, "history-independence", families(chk.tier, chk.seed), case_fn, site="C13/history",
         rule="pool of 4 models (A; B = same operator NAME, other equation; C = same operator structure, other values/nodes; D = "
